@@ -91,10 +91,7 @@ func loadProgram(repo string, want []string) (*Program, error) {
 			p.funcs[short+"."+funcKey(fn)] = fn
 		}
 	}
-	for _, fn := range p.funcs {
-		p.implicitLocks(fn)
-	}
-	p.implFrozen = true
+	p.computeImplicitLocks()
 	// contract files
 	for short := range p.pkgs {
 		cp := contractPath(repo, short)
